@@ -209,6 +209,13 @@ pub fn new_iset(probe: &ProbeLog) -> InstructionSet {
     for name in ["VERIFSQUARE", "verif.lower", "2VERIF", "424242", "4.25", "BOOL[1,0]", "INT[7", "integer.max", "Float.<", "name.cat", "intvector.sum"].iter() {
         iset.add(name.to_string(), Instruction::new(|_st: &mut PushState, _c: &InstructionCache| {}));
     }
+    // a user instruction that changes the configuration of the state it runs on: from then on no time is left
+    iset.add(
+        "VERIF.TIMEUP".to_string(),
+        Instruction::new(|st: &mut PushState, _c: &InstructionCache| {
+            st.configuration.eval_time_limit = 0;
+        }),
+    );
     let p2 = probe.clone();
     iset.add(
         "VERIF.SLEEP".to_string(),
